@@ -8,7 +8,7 @@ tie   : T-gen (GetStartBucketIndex / GetNextBucketIndex / GetMaxProbe / UpdateMa
 oracle: std::map twin inside the harness (independent of the Coq model)."""
 import os, re
 
-GEN = ['gen_openn1_ops.json', 'gen_unlimp.json', 'gen_limp1.json', 'gen_limp1t.json', 'gen_limp1f.json', 'gen_lim4.json', 'gen_limp.json', 'gen_open2n2w.json', 'gen_base.json', 'gen_policy.json', 'gen_limp4.json', 'gen_open2n2.json', 'gen_openn1.json', 'gen_open8.json']
+GEN = ['gen_one.json', 'gen_open2n2_ops.json', 'gen_openn1_ops.json', 'gen_unlimp.json', 'gen_limp1.json', 'gen_limp1t.json', 'gen_limp1f.json', 'gen_lim4.json', 'gen_limp.json', 'gen_open2n2w.json', 'gen_base.json', 'gen_policy.json', 'gen_limp4.json', 'gen_open2n2.json', 'gen_openn1.json', 'gen_open8.json']
 
 ITEMS = {'a': (4, 4, 0), 'b': (8, 4, 0), 'c': (8, 8, 0), 'd': (24, 8, 0), 'e': (40, 8, 0), 'f': (16, 16, 0), 'g': (1, 1, 0),
          'h': (2, 2, 0), 'u': (4, 4, 0), 'z': (12, 4, 0), 't': (3, 1, 0), 'n': (8, 4, 1), 'm': (24, 8, 1), 'x': (8, 4, 2), 'y': (40, 8, 2)}
@@ -336,6 +336,16 @@ def n1ops_cases(ctx, scale):
                 elif x < 9: ops.append('u%d' % r.choice([r.below(8), r.below(300), r.below(2 ** 20)]))
                 else: ops.append('c')
             cs.append('n1 %d %d %s' % (N, R, ' '.join(ops)))
+    for M in (1, 2, 3):          # BucketOpen2N2<M, hash-code-part getter>: encoded as n1 3M
+        for i in range(60 * scale):
+            ops = []
+            for _ in range(r.range(1, 40)):
+                x = r.below(10)
+                if x < 5: ops.append('a%d' % r.choice([r.below(2 ** 64), r.below(2 ** 40), (r.below(128) << 57) + r.below(2 ** 40)]))
+                elif x < 8: ops.append('r%d' % r.below(M))
+                elif x < 9: ops.append('u%d' % r.choice([r.below(8), r.below(300), r.below(2 ** 20), 2 ** 40 + r.below(99)]))
+                else: ops.append('c')
+            cs.append('n1 %d 0 %s' % (30 + M, ' '.join(ops)))
     return cs
 
 
@@ -346,6 +356,7 @@ def kind_cases(ctx):
     cs += ['kf 1 %d' % c for c in range(1, 5)] + ['kf 5 %d' % c for c in range(1, 9)]
     cs += ['kf 2 0', 'kf 2 1'] + ['kf 2 %d' % ((i << 30) + r.below(2 ** 28)) for i in range(4) for _ in range(20)]
     cs += ['kf 3 %d %d %d' % (r.below(2 ** 26), i, c) for i in range(1, 5) for c in range(1, i + 1) for _ in range(8)]
+    cs += ['kf 6 %d' % hc for hc in [0, 1, 2 ** 63, 2 ** 64 - 1] + [r.below(2 ** 64) for _ in range(30)]]
     cs += ['kf 4 0', 'kf 4 1'] + ['kf 4 %d' % (r.range(1, 2 ** 40) * 8 + j) for j in range(8) for _ in range(10)]
     return cs
 
@@ -382,7 +393,7 @@ def build(ctx):
             res[tu] = exe
         else:
             if os.path.exists(keyf): os.remove(keyf)
-            jobs.append((tu + '.cpp', tu, [])); res[tu] = ('build', k)
+            jobs.append((tu + '.cpp', tu, ['-O0', '-g0'] if ctx.quick() else [])); res[tu] = ('build', k)
     if jobs:
         built = ctx.cxx_many(jobs)
         for tu, v in built.items():
@@ -512,7 +523,7 @@ def run(ctx):
     if have_model:
         n1c = n1ops_cases(ctx, scale)
         mism, _ = ctx.correspond('openn1-ops-bytes', n1c, [exes['harness6']], [ctx.model_exe])
-        ctx.tie_obligations.append({'name': 'generated BucketOpenN1 AddCrt / Remove / Clear / UpdateMaxProbe == real object, byte for byte, on %d random op sequences' % len(n1c), 'ok': not mism})
+        ctx.tie_obligations.append({'name': 'generated BucketOpenN1 and BucketOpen2N2 AddCrt / Remove / Clear / UpdateMaxProbe == real objects, byte for byte, on %d random op sequences' % len(n1c), 'ok': not mism})
         for (i, c, a, b) in mism[:2]:
             ctx.violation('BucketOpenN1 byte state after an operation sequence differs from the generated model', {'case': c, 'tu': 'harness6', 'impl': a, 'model': b}, found_input=True)
     if have_model:
